@@ -16,6 +16,7 @@ mod c13;
 mod c14;
 mod c20;
 mod c12;
+mod c10;
 
 use rng::Rng;
 
@@ -49,6 +50,7 @@ fn main() {
         "C07" => cbin::cases_c07(&mut rng, count, tier),
         "C08" => cbin::cases_c08(&mut rng, count, tier),
         "C16" => cworld::cases_c16(&mut rng, count, tier),
+        "C10" => c10::cases(&mut rng, count, tier),
         "C11" => c11::cases(&mut rng, count, tier),
         "C12" => c12::cases(&mut rng, count, tier),
         "C13" => c13::cases(&mut rng, count, tier),
